@@ -38,6 +38,9 @@ pub struct Shared {
 	pub findings: Vec<Finding>,
 	pub shadow: Vec<u32>,
 	pub poison: HashMap<WrapId, PState>,
+	/// CONC: poison states that take effect when the unwinding of this thread's
+	/// panic is complete (until then the wrappers are in transition: Unspec)
+	pub pending_poison: HashMap<Tid, Vec<(WrapId, PState)>>,
 	/// holds leaked on purpose with mem::forget: (tid, lid, shared)
 	pub leaked: Vec<(Tid, Lid, bool)>,
 	pub phantoms: Vec<(Lid, bool, Tid)>,
@@ -415,7 +418,10 @@ fn check_poison_obs_at(
 }
 
 /// model update for a panic inside a section
-fn model_panic(env: &Env, sec: &SectionInfo<'_>) {
+fn model_panic(env: &Env, tid: Tid, sec: &SectionInfo<'_>) {
+	if env.opts.conc {
+		env.exec.set_unwinding(tid, true);
+	}
 	let kind = kind_name(env, sec.target);
 	// a scoped call of a Poisonable poisons that wrapper in its unwind handler
 	// ("own"); every other wrapper reached through the closure argument is
@@ -451,7 +457,37 @@ fn model_panic(env: &Env, sec: &SectionInfo<'_>) {
 					_ => PState::Poisoned(cause),
 				}
 			};
-			sh.poison.insert(w.clone(), new);
+			if env.opts.conc && !sec.flat.pos.iter().any(|p| p.wraps.contains(w)) {
+				// the flags are set one by one while the guard / handler unwinds,
+				// with scheduling points in between (every raw unlock).  A wrapper
+				// that encloses a lock of the section can only be looked at by an
+				// acquisition after that lock was released, i.e. after its flag
+				// was set; a wrapper that encloses no lock at all (a Poisonable
+				// around an empty collection) can be acquired by another thread
+				// at any of those points.  For those the state is open until the
+				// panic has finished unwinding; then it is as computed here.
+				sh.pending_poison.entry(tid).or_default().push((w.clone(), new));
+				sh.poison.insert(w.clone(), PState::Unspec);
+			} else {
+				sh.poison.insert(w.clone(), new);
+			}
+		}
+	}
+}
+
+/// the panic of `tid` has finished unwinding: its poison states take effect
+fn commit_panic(env: &Env, tid: Tid) {
+	env.exec.set_unwinding(tid, false);
+	let mut sh = env.sh();
+	if let Some(v) = sh.pending_poison.remove(&tid) {
+		for (w, st) in v {
+			let cur = sh.poison.get(&w).cloned().unwrap_or(PState::Clean);
+			let new = match (cur, st) {
+				// somebody else's panic was committed in the meantime
+				(PState::Poisoned(c), _) => PState::Poisoned(c),
+				(_, st) => st,
+			};
+			sh.poison.insert(w, new);
 		}
 	}
 }
@@ -508,7 +544,7 @@ fn run_body(
 				}
 			}
 			BodyOp::Panic => {
-				model_panic(env, sec);
+				model_panic(env, ctx_tid, sec);
 				env.label("panic_in_section");
 				std::panic::panic_any(UserPanic);
 			}
@@ -1168,6 +1204,7 @@ fn step_guard_ops(env: &Env, ctx: &mut ThreadCtx, ops: &[BodyOp]) -> bool {
 	match r {
 		Err(p) => match classify_panic(p) {
 			PanicKind::User => {
+				commit_panic(env, tid);
 				// C11: propagated (we caught our own payload), nothing held, key obtainable
 				let held = held_now(env, tid);
 				if !held.is_empty() {
@@ -1478,6 +1515,7 @@ fn step_scoped(
 		}
 		Err(p) => match classify_panic(p) {
 			PanicKind::User => {
+				commit_panic(env, tid);
 				let held = held_now(env, tid);
 				if !held.is_empty() {
 					env.finding(
